@@ -327,11 +327,15 @@ def rollback_live(ctx, cr, fails, mism, dist):
             ctx.count(("live-rollback", pos, how, len(live)))
             k = "live-rollback-%s" % pos
             dist[k] = dist.get(k, 0) + 1
-            ok = check(cred, 0, "attempts %s: the reply to the successful decode of a credential could not be delivered and the "
-                                "client never came back, while %d other live credential(s) share its replay-table bucket "
-                                "(it is the %s node of the chain); the credential must remain decodable"
-                       % (list(how), len(live), pos), case)
-            if ok:
+            # an earlier attempt answered as far as munged can tell ('L'): the retry adds no record and takes none back
+            # (repair 3dbe0fd: take back only the replay entry that this decode added) - the credential stays consumed
+            want = 17 if "L" in how[:-1] else 0
+            ok = check(cred, want, "attempts %s: the reply to the successful decode of a credential could not be delivered and the "
+                                   "client never came back, while %d other live credential(s) share its replay-table bucket "
+                                   "(it is the %s node of the chain); %s"
+                       % (list(how), len(live), pos, "the credential must remain decodable" if want == 0 else
+                          "the retry added no record, so the credential must stay consumed"), case)
+            if ok and want == 0:
                 check(cred, 17, "the credential decoded after a roll-back is presented once more", case)
             for j in live:
                 check(group[j][1], 17, "another live credential of the same bucket after the roll-back", case)
